@@ -11,6 +11,8 @@ Property oracle on the real code with the REAL scipy distributions (`from_variab
 precipitation on the eight debiasers, beta / uniform / Weibull data on the six other bounded ISIMIP variables, windows
 on and off; the statement's inequalities are checked with exact float comparisons.  Single locations through `apply_location`
 and small grids through the public `apply` (serial / parallel, failsafe, time encodings, memory layouts, construction order).
+'options' cases: the documented non-default calculation settings of each debiaser (ecdf / iecdf method, cdf_threshold, detrending,
+mapping type, the ISIMIP step switches), every listed value at least once per run (OPTION_SPACE).
 """
 import datetime
 import logging
@@ -25,7 +27,7 @@ from harness import common as C
 PROP = "C10"
 TARGETS = ["IbicusModel.Props.C10", "IbicusModel.Lemmas.GenDebiasers", "IbicusModel.Lemmas.GenIsimipFreq",
            "IbicusModel.Lemmas.GenIsimipVars", "IbicusModel.Lemmas.GenIsimipSteps",
-           "IbicusModel.Lemmas.GenIsimipSteps2"]  # Steps2: step 1 / step 8 (annual cycle of upper bounds, rsds) regenerated = model
+           "IbicusModel.Lemmas.GenIsimipSteps2", "IbicusModel.Lemmas.GroupMax"]  # GroupMax: reduceat on a sorted series = per-day maxima (step 1 ties unconditional); Steps2: step 1 / step 8 (annual cycle of upper bounds, rsds) regenerated = model
 GEN = ["Debiasers", "IsimipFreq", "IsimipVars", "IsimipSteps"]  # IsimipSteps: per-element logic of steps 2-7 (tier A)
 TARGETS += ["IbicusModel.Lemmas.GenDebWinSdm"]  # tier A of SDM relative (`_apply_on_window_relative_sdm` denotes Model.Debiasers.sdmRelative) and CDFt SSR with one draw list
 GEN += ["DebWin"]  # Gen.DebWin: dataflow programs extracted by translator/extract_debiasers.py
@@ -124,8 +126,9 @@ def gen_var(nprs, var, dates, bias, polar=False):
 
 # ------------------------------------------------------------------ the debiasers under test (real classes, real scipy)
 def make_debiaser(name, mode, var="pr", fast=True, delta_shift="additive", year_windows=None, parametric=False,
-                  default_windows=False):
-    """mode: 'win' (running windows; + year windows for CDFt / QDM) | 'nowin' (window-free; ISIMIP: month mode)"""
+                  default_windows=False, options=None):
+    """mode: 'win' (running windows; + year windows for CDFt / QDM) | 'nowin' (window-free; ISIMIP: month mode)
+    options: further documented keyword settings handed to the constructor (the 'options' cases, see OPTION_SPACE)"""
     from ibicus.debias import (CDFt, DeltaChange, ISIMIP, LinearScaling, QuantileDeltaMapping, QuantileMapping,
                                ScaledDistributionMapping)
 
@@ -133,32 +136,34 @@ def make_debiaser(name, mode, var="pr", fast=True, delta_shift="additive", year_
     rw = dict(running_window_mode=True, running_window_length=91, running_window_step_length=step) if mode == "win" \
         else dict(running_window_mode=False)
     yw = dict(running_window_mode_over_years_of_cm_future=((mode == "win") if year_windows is None else bool(year_windows)))
+    extra = dict(options or {})  # empty for every case but the 'options' cases
     with warnings.catch_warnings():
         warnings.simplefilter("ignore")
         if name == "LinearScaling":
-            return LinearScaling.from_variable("pr", **rw)
+            return LinearScaling.from_variable("pr", **rw, **extra)
         if name == "DeltaChange":
-            return DeltaChange.from_variable("pr", **rw)
+            return DeltaChange.from_variable("pr", **rw, **extra)
         if name == "QuantileMapping-hurdle":
-            return QuantileMapping.for_precipitation(model_type="hurdle", **rw)
+            return QuantileMapping.for_precipitation(model_type="hurdle", **rw, **extra)
         if name == "QuantileMapping-hurdle-norand":
-            return QuantileMapping.for_precipitation(model_type="hurdle", hurdle_model_randomization=False, **rw)
+            return QuantileMapping.for_precipitation(model_type="hurdle", hurdle_model_randomization=False, **rw, **extra)
         if name == "QuantileMapping-censored":
-            return QuantileMapping.for_precipitation(model_type="censored", censoring_threshold=THR_ISIMIP, **rw)
+            return QuantileMapping.for_precipitation(model_type="censored", censoring_threshold=THR_ISIMIP, **rw, **extra)
         if name == "QuantileMapping-fromvar":
-            return QuantileMapping.from_variable("pr", **rw)
+            return QuantileMapping.from_variable("pr", **rw, **extra)
         if name == "ScaledDistributionMapping":
-            return ScaledDistributionMapping.from_variable("pr", **rw)
+            return ScaledDistributionMapping.from_variable("pr", **rw, **extra)
         if name == "ScaledDistributionMapping-forpr":  # the documented convenience constructor
-            return ScaledDistributionMapping.for_precipitation(**rw)
+            return ScaledDistributionMapping.for_precipitation(**rw, **extra)
         if name == "QuantileDeltaMapping-forpr":
-            return QuantileDeltaMapping.for_precipitation(**rw, **yw)
+            return QuantileDeltaMapping.for_precipitation(**rw, **yw, **extra)
         if name == "CDFt":
-            return CDFt.from_variable("pr", delta_shift=delta_shift, **rw, **yw)
+            return CDFt.from_variable("pr", delta_shift=delta_shift, **rw, **yw, **extra)
         if name == "QuantileDeltaMapping":
-            return QuantileDeltaMapping.from_variable("pr", **rw, **yw)
+            return QuantileDeltaMapping.from_variable("pr", **rw, **yw, **extra)
         if name == "ISIMIP":
             opt = dict(nonparametric_qm=False) if parametric else {}  # parametric step 6 for a doubly bounded variable
+            opt.update(extra)
             if default_windows:  # exactly what from_variable gives: running window of 31 days moved in steps of 1 day
                 return ISIMIP.from_variable(var, **opt)
             if mode == "win":
@@ -393,6 +398,55 @@ def gen_case(rng, name, var, mode, tier, long_future=False, regime=None):
     return case
 
 
+# ------------------------------------------------------------------ documented non-default settings ('options' cases)
+# The quantifier ranges over "inputs AND configurations": every debiaser the statement names documents keyword settings that
+# select HOW a step is computed without changing what the debiaser is for (which empirical CDF / quantile estimator, the
+# rounding of CDF values away from 0 and 1, detrending with a ratio or none, parametric or empirical mapping, the switches of
+# the ISIMIP steps).  The statement (never negative, never NaN, exact zeros or >= the threshold, inside the bounds, no value in
+# a gap) is claimed for each of them, not only for the defaults `from_variable` / `for_precipitation` fill in.  Per run every
+# listed value of every option is met at least once per debiaser family (values are cycled with the running number of the case,
+# offsets drawn once per run).  Not listed: settings that turn the debiaser into one for another
+# kind of variable (additive delta / detrending / trend for precipitation, other bounds, another distribution) and detrending =
+# True of ISIMIP (excluded by the stated assumptions).
+ECDF_METHODS = ["linear_interpolation", "step_function", "kernel_density"]
+IECDF_METHODS = ["linear", "inverted_cdf", "averaged_inverted_cdf", "closest_observation", "interpolated_inverted_cdf", "hazen", "weibull",
+                 "median_unbiased", "normal_unbiased"]
+_QDM_OPTIONS = {"ecdf_method": ECDF_METHODS, "cdf_threshold": [None, 1e-3, 1e-6]}  # None: the documented default 1 / (window * years + 1)
+_QM_OPTIONS = {"cdf_threshold": [1e-10, 1e-6, 1e-3], "detrending": ["multiplicative", "no_detrending"], "mapping_type": ["parametric", "nonparametric"]}
+_SDM_OPTIONS = {"cdf_threshold": [1e-10, 1e-6, 1e-3]}
+OPTION_SPACE = {
+    "QuantileDeltaMapping": _QDM_OPTIONS, "QuantileDeltaMapping-forpr": _QDM_OPTIONS,
+    "CDFt": {"iecdf_method": IECDF_METHODS, "ecdf_method": ECDF_METHODS},
+    "QuantileMapping-hurdle": _QM_OPTIONS, "QuantileMapping-censored": _QM_OPTIONS, "QuantileMapping-fromvar": _QM_OPTIONS,
+    "ScaledDistributionMapping": _SDM_OPTIONS, "ScaledDistributionMapping-forpr": _SDM_OPTIONS,
+    "ISIMIP": {"ecdf_method": ECDF_METHODS, "iecdf_method": IECDF_METHODS, "mode_non_parametric_qm": ["normal", "isimipv3.0"],
+               "nonparametric_qm": [True, False], "event_likelihood_adjustment": [False, True], "ks_test_for_goodness_of_cdf_fit": [True, False],
+               "trend_transfer_only_for_values_within_threshold": [True, False],
+               "bias_correct_frequencies_of_values_beyond_thresholds": [True, False]},
+}
+
+
+def gen_options_case(rng, name, var, mode, tier, k, offsets):
+    """k = running number of the options case of this debiaser family in this run, offsets = one number per option drawn once per run.
+    Option j of case k takes its value number ((k + offsets[j]) // stride_j) mod (number of values), stride_j = 1, 2, 4, 1, 2, 4, ...:
+    any stride_j * len(values) consecutive cases of a family meet every value of option j (number 0 is the default), and options with
+    different strides meet in every pairing."""
+    case = gen_case(rng, name, var, mode, tier)
+    monsoon = case.get("regime") == "monsoon"  # gen_case draws this regime for a quarter of the pr cases
+    case["regime"] = "options/monsoon" if monsoon else "options"
+    if tier == "quick":
+        case["years"] = 5 if monsoon or (name == "ISIMIP" and mode == "nowin") else 3
+    if var == "pr" and (mode == "win" or name == "ISIMIP"):  # keep most draws inside the quantifier (>= 20 wet values in every window / month)
+        case["pdry"] = [round(min(p, 0.65), 3) for p in case["pdry"]]
+    opts = {}
+    for j, (key, values) in enumerate(OPTION_SPACE[name].items()):
+        v = values[((k + offsets[j % len(offsets)]) // (1 << (j % 3))) % len(values)]
+        if v is not None:
+            opts[key] = v
+    case["options"] = opts
+    return case
+
+
 def build_inputs(case, dates=None, data_seed=None):
     """dates / data_seed: a further grid cell of the same case — the same time axes, values from another seed"""
     nprs = np.random.RandomState(case["case_seed"] if data_seed is None else data_seed)
@@ -479,7 +533,8 @@ def judge(deb, case, series, dates, np_seed, info):
     problems = []
     for kind, msg, idx in bad:
         day = f", date {tF[idx]}" if name != "DeltaChange" and idx < tF.size else ""
-        problems.append((kind, f"{name}[{var}, {mode}]: {msg}; first at index {idx}{day} (input cm_future {f[min(idx, f.size - 1)]!r})"))
+        opts = "".join(f", {a}={v!r}" for a, v in (case.get("options") or {}).items())
+        problems.append((kind, f"{name}[{var}, {mode}{opts}]: {msg}; first at index {idx}{day} (input cm_future {f[min(idx, f.size - 1)]!r})"))
     return "ok", problems
 
 
@@ -530,10 +585,14 @@ def run_case(case):
         return run_grid_case(case)
     series, dates = build_inputs(case)
     name, var, mode = case["debiaser"], case["variable"], case["mode"]
-    deb = make_debiaser(name, mode, var, fast=case.get("fast_windows", True), delta_shift=case.get("delta_shift", "additive"),
-                        year_windows=case.get("year_windows"), parametric=bool(case.get("parametric")),
-                        default_windows=bool(case.get("default_windows")))
     info = {}
+    try:
+        deb = make_debiaser(name, mode, var, fast=case.get("fast_windows", True), delta_shift=case.get("delta_shift", "additive"),
+                            year_windows=case.get("year_windows"), parametric=bool(case.get("parametric")),
+                            default_windows=bool(case.get("default_windows")), options=case.get("options"))
+    except Exception as ex:  # noqa: BLE001  (a documented setting the constructor no longer accepts: reported like a raise of apply_location)
+        info["exception"] = f"constructor: {type(ex).__name__}: {str(ex)[:120]}"
+        return "exception", [], info
     seed = case["case_seed"] % (2**31 - 1)
     if case.get("probes") and var == "pr" and hasattr(getattr(deb, "distribution", None), "fit"):
         info["low_quantile_probes"] = add_low_quantile_probes(deb, series, np.random.RandomState(seed), case["probes"])
@@ -867,6 +926,10 @@ def run(tier, res, force_search=False):
         "encoding or none; C / F / transposed-storage / strided layouts, mask-free masked arrays; debiaser built by keywords, by attribute assignment, "
         "as a pickled or deep copy); every cell of the returned array is judged like a single location, a cell never written (NaN under the hook) or an "
         "exception of `apply` on a grid whose cells all work on their own is a failing input; cells the 'left unadjusted' path touches are skipped",
+        "configurations: besides the defaults, the documented calculation settings listed in OPTION_SPACE (ecdf_method, iecdf_method, cdf_threshold, "
+        "detrending multiplicative / none, mapping_type, mode_non_parametric_qm, nonparametric_qm, event_likelihood_adjustment, ks_test_for_goodness_of_cdf_fit, "
+        "trend_transfer_only_for_values_within_threshold, bias_correct_frequencies_of_values_beyond_thresholds) are judged with the same comparisons; settings that "
+        "make the debiaser one for another kind of variable (additive delta / detrending for pr, other bounds or distributions) are not generated",
     ]
     lean_ok = C.lean_phase(res, PROP, GEN, TARGETS)
     res.extra["t_lean_s"] = round(time.time() - t0, 1)
@@ -912,6 +975,16 @@ def run(tier, res, force_search=False):
         plan += [(GRID_CHEAP[r % 2], "pr", ("win", "nowin")[(r // 2) % 2], "grid"), (GRID_ROT[r % len(GRID_ROT)], "pr", ("nowin", "win")[r % 2], "grid"),
                  (GRID_ROT[(r + 4) % len(GRID_ROT)], "pr", ("win", "nowin")[r % 2], "grid"),
                  ("ISIMIP", "pr", ("win", "nowin")[r % 2], "grid"), ("ISIMIP", ISIMIP_VARS[r % len(ISIMIP_VARS)], ("nowin", "win")[r % 2], "grid")]
+        # documented non-default settings (quantifier: "configurations"): window-free cases are cheap, so every repetition has several per
+        # family; one running-window case per repetition for QuantileDeltaMapping and one for another family in turn; every ISIMIP variable
+        plan += [(("QuantileDeltaMapping", "QuantileDeltaMapping-forpr")[(r + i) % 2], "pr", "nowin", "options") for i in range(3)]
+        plan += [(("QuantileDeltaMapping-forpr", "QuantileDeltaMapping")[r % 2], "pr", "win", "options")]
+        plan += [("CDFt", "pr", "nowin", "options")] * 3
+        plan += [(nm, "pr", "nowin", "options") for nm in ("QuantileMapping-hurdle", "QuantileMapping-censored", "QuantileMapping-fromvar",
+                                                          "ScaledDistributionMapping", "ScaledDistributionMapping-forpr")]
+        plan += [(("CDFt", ("QuantileMapping-hurdle", "QuantileMapping-censored", "QuantileMapping-fromvar")[(r // 3) % 3],
+                   ("ScaledDistributionMapping", "ScaledDistributionMapping-forpr")[(r // 3) % 2])[r % 3], "pr", "win", "options")]
+        plan += [("ISIMIP", v, ("win", "nowin")[(r + i) % 2], "options") for i, v in enumerate(["pr"] + ISIMIP_VARS)]
         for name in PR_DEBIASERS:
             for mode in ("win", "nowin"):
                 plan.append((name, "pr", mode))
@@ -942,7 +1015,9 @@ def run(tier, res, force_search=False):
     problems_all, stats, oracle_samples = [], {}, []
     rng_grid = random.Random(C.seed() * 1000003 + 1010)  # its own stream: the single-location cases of a seed stay what they were
     n_grid, grid_offsets = 0, [rng_grid.randint(0, 23) for _ in range(4)]
-    budget_s = 75 if tier == "quick" else 450
+    rng_opt = random.Random(C.seed() * 1000003 + 1011)  # the 'options' cases: again a stream of their own
+    n_opt, opt_offsets = {}, [rng_opt.randint(0, 71) for _ in range(8)]
+    budget_s = 90 if tier == "quick" else 480  # 75 / 450 before the 'options' cases (about 12 s in the quick tier) were added
     for k, (name, var, mode, *rest) in enumerate(plan):
         if time.time() - t2 > budget_s * (3 if (force_search or not lean_ok or res.tie_broken) else 1):
             res.notes.append(f"oracle stopped after {k} of {len(plan)} planned cases (time budget)")
@@ -951,6 +1026,10 @@ def run(tier, res, force_search=False):
         if tag == "grid":
             case = gen_grid_case(rng_grid, name, var, mode, tier, n_grid, grid_offsets)
             n_grid += 1
+        elif tag == "options":
+            fam = name.split("-")[0]
+            case = gen_options_case(rng_opt, name, var, mode, tier, n_opt.get(fam, 0), opt_offsets)
+            n_opt[fam] = n_opt.get(fam, 0) + 1
         else:
             case = gen_case(rng, name, var, mode, tier, long_future=(tag == "long"), regime=(tag if tag in ("monsoon", "near-bound", "default-windows", "sequence", "bell", "polar") else None))
         t_case = time.time()
@@ -959,6 +1038,14 @@ def run(tier, res, force_search=False):
             res.extra["t_oracle_grid_apply_s"] = round(res.extra.get("t_oracle_grid_apply_s", 0.0) + time.time() - t_case, 1)
         key = f"{name}/{var}/{mode}" + (f"/{tag}" if tag else "")
         st = stats.setdefault(key, {"ok": 0, "outside": 0, "exception": 0, "violations": 0})
+        for _ in range(2):  # an options case whose data fell outside the quantifier: the same settings on other data (the guard runs before the code)
+            if tag != "options" or status != "outside":
+                break
+            st[status] += 1
+            case = gen_options_case(rng_opt, name, var, mode, tier, n_opt[name.split("-")[0]] - 1, opt_offsets)
+            status, problems, info = run_case(case)
+        if tag == "options":
+            res.extra["t_oracle_options_s"] = round(res.extra.get("t_oracle_options_s", 0.0) + time.time() - t_case, 1)
         st[status] += 1
         if status == "exception":
             res.notes.append(f"{key}: the real code raised on a valid input: {info.get('exception')} (case_seed {case['case_seed']})")
@@ -966,7 +1053,10 @@ def run(tier, res, force_search=False):
             mixed = bool(info.get("zeros")) or bool(info.get("at_lower_bound")) or bool(info.get("at_upper_bound"))
             sig = tuple(round(x, 1) for x in case.get("pdry", case.get("bias", [])))
             res.count((name, var, mode, sig) + ((tuple(case["grid"]["shape"]), case["grid"]["dispatch"], case["grid"]["failsafe"], case["grid"]["time"])
-                                                if case.get("grid") else ()), mixed)
+                                                if case.get("grid") else ()) + (tuple(sorted(case["options"].items())) if case.get("options") else ()), mixed)
+            for a, v in (case.get("options") or {}).items():
+                opt_seen = res.extra.setdefault("oracle_option_values_met", {}).setdefault(name.split("-")[0], {}).setdefault(a, {})
+                opt_seen[str(v)] = opt_seen.get(str(v), 0) + 1
             if k % 7 == 0 and len(oracle_samples) < 4:
                 oracle_samples.append({**case, **info})
         for kind, p in problems:
